@@ -177,6 +177,22 @@ func init() {
 					add([]rscp.Message{{Tag: 0x01000005, DataType: rscp.DataType(d), Value: v}})
 				}
 			}
+			// every defined data type x every kind of Go value, at nesting depth 0..3 (a value of the wrong kind must be refused
+			// wherever it sits; also None with a value)
+			kinds := []interface{}{nil, true, int8(1), uint8(1), int16(1), uint16(1), int32(1), uint32(1), int64(1), uint64(1), float32(1), float64(1),
+				"x", []byte{1}, []rscp.Message{}, time.Unix(1, 0).UTC(), rscp.RscpError(1), int(1), struct{}{}, rscp.Tag(1)}
+			for _, d := range allTypes {
+				for _, v := range kinds {
+					for depth := 0; depth <= 3; depth++ {
+						m := rscp.Message{Tag: 0x01000005, DataType: d, Value: v}
+						for k := 0; k < depth; k++ {
+							sib := rscp.Message{Tag: 0x01000007, DataType: rscp.None}
+							m = rscp.Message{Tag: rscp.Tag(0x01000030 + uint32(k)), DataType: rscp.Container, Value: []rscp.Message{sib, m}}
+						}
+						add([]rscp.Message{m})
+					}
+				}
+			}
 			add([]rscp.Message{})
 			for _, ms := range lists {
 				emit("V " + sxs(ms))
@@ -845,6 +861,9 @@ func init() {
 				// the request direction
 				mk(to, []reaction{{writeFail: true}})
 				mk(to, []reaction{answer(a), {writeFail: true}})
+				// a peer that drains the request slowly: some bytes are accepted, then the write deadline passes
+				mk(to, []reaction{{writeFail: true, stall: 1 + r.intn(40)}})
+				mk(to, []reaction{answer(a), {writeFail: true, stall: 1 + r.intn(40)}, answer(u), answer(u)})
 				// the peer closes at every stage
 				mk(to, []reaction{{eof: true}})
 				mk(to, []reaction{answer(a), {eof: true}})
@@ -942,6 +961,19 @@ func init() {
 					fmt.Sscan(f[2], &ms)
 					if d := ms - eff(sc.st); d > 1 || d < -1 {
 						return fmt.Sprintf("the write deadline is %d ms but the effective send timeout is %d ms", ms, eff(sc.st))
+					}
+				}
+			}
+			// a write that failed or ran into its deadline ends the call: the connection is closed, nothing more is written on it
+			for i, e := range ev {
+				if strings.HasPrefix(e, "WRITEFAIL") {
+					for _, e2 := range ev[i+1:] {
+						if strings.HasPrefix(e2, "CLOSE") || strings.HasPrefix(e2, "DIAL") {
+							break
+						}
+						if strings.HasPrefix(e2, "SETWD") || strings.HasPrefix(e2, "WRITE") {
+							return "after a write ran into its deadline the client arms a new deadline and goes on writing (a slowly draining peer can hold the call for ever)"
+						}
 					}
 				}
 			}
